@@ -18,6 +18,8 @@ import (
 	"bytes"
 	"crypto/sha256"
 	"errors"
+	"fmt"
+	"os"
 )
 
 const (
@@ -176,10 +178,16 @@ func (v *Verifier) RingVerify(context, message, signature []byte) ([]byte, error
 		}
 	}
 	if !member {
+		if os.Getenv("VERIF_VRF_DEBUG") != "" {
+			fmt.Fprintf(os.Stderr, "VRFDEBUG signer %x not in ring %x\n", pub[:4], v.ring)
+		}
 		return nil, errors.New("vrf stand-in: signer not in ring")
 	}
 	if !bytes.Equal(signature[0:32], output(pub, context)) ||
 		!bytes.Equal(signature[64:96], h("rtag", pub, context, message)) {
+		if os.Getenv("VERIF_VRF_DEBUG") != "" {
+			fmt.Fprintf(os.Stderr, "VRFDEBUG verification failed pub %x ctx %x\n", pub[:4], context)
+		}
 		return nil, errors.New("vrf stand-in: ring signature verification failed")
 	}
 	for _, b := range signature[96:] {
